@@ -15,7 +15,7 @@ namespace DrvC14
 
 def showErr : Err → String
   | .attr => "err:attr" | .assert => "err:assert" | .value => "err:value"
-  | .index => "err:index" | .zero => "err:zero" | .type => "err:type"
+  | .index => "err:index" | .zero => "err:zero" | .type => "err:type" | .key => "err:key"
 
 def showCls : Cls → String
   | .hd => "hd" | .hc => "hc" | .daily => "daily" | .monthly => "monthly" | .mph => "mph"
@@ -26,15 +26,31 @@ def cls? : String → Option Cls
 
 def commaJoin (l : List String) : String := ",".intercalate l
 
+def showOV : OV → String
+  | .tok s => s
+  | .lst l => "[" ++ ";".intercalate l ++ "]"
+  | .bad => "?"
+
 def showObs (o : Obs) : String :=
   let md := o.md.mergeSort (fun a b => a.1 ≤ b.1)
   s!"{showCls o.cls} {showBool o.isMut} {showBool o.validated} {o.dtype} {o.unit} " ++
   "A:" ++ commaJoin (o.ap.map toString) ++ " M:" ++
-  commaJoin (md.map fun p => toString p.1 ++ "=" ++ p.2) ++
+  commaJoin (md.map fun p => toString p.1 ++ "=" ++ showOV p.2) ++
   " D:" ++ commaJoin (o.dts.map toString) ++ " V:" ++ commaJoin (o.vals.map showRat)
 
+def showOperand (live : List Ref) : Operand → String
+  | .scalar q => "s:" ++ showRat q
+  | .coll r => "c:" ++ (match live.idxOf? r with | some i => toString i | none => "?")
+
+def showAny (h : Heap) (live : List Ref) (c : Ref) : String :=
+  match obsA h c with
+  | .coll (some o) => showObs o
+  | .list v => "list V:" ++ commaJoin (v.map showRat)
+  | .args l => "args " ++ commaJoin (l.map (showOperand live))
+  | _ => "?"
+
 def showLive (h : Heap) (live : List Ref) : String :=
-  " # ".intercalate (live.map fun c => match obs h c with | some o => showObs o | none => "?")
+  " # ".intercalate (live.map (showAny h live))
 
 /-- Parser over the token list. -/
 abbrev P := StateT (List String) Option
@@ -57,7 +73,13 @@ def pList {α : Type} (p : P α) : P (List α) := do
     | k + 1 => do let x ← p; let r ← go k; pure (x :: r)
   go n
 
-def pMeta : P (List (Nat × MV)) := pList (do let k ← pNat; let v ← tok; pure (k, v))
+def pOV : P OV := do
+  let t ← tok
+  if t = "T" then do let v ← tok; pure (.tok v)
+  else if t = "L" then do let l ← pList tok; pure (.lst l)
+  else failure
+
+def pMeta : P (List (Nat × OV)) := pList (do let k ← pNat; let v ← pOV; pure (k, v))
 
 def pOptNat : P (Option Nat) := do
   let t ← tok
@@ -93,7 +115,11 @@ def pDOp (live : List Ref) : P DOp := do
   | "aligned" => do
       let t ← tok
       let v ← if t = "s" then (do let q ← pRat; pure (AlignVal.scalar q))
-              else if t = "l" then (do let l ← pList pRat; pure (AlignVal.list l)) else failure
+              else if t = "l" then (do let l ← pList pRat; pure (AlignVal.list l))
+              else if t = "r" then (do
+                let i ← pNat
+                match live[i]? with | some r => pure (AlignVal.listRef r) | none => failure)
+              else failure
       let u ← pOptNat
       let mt ← pOptBool
       pure (.aligned v u mt)
@@ -116,9 +142,16 @@ def pDOp (live : List Ref) : P DOp := do
   | "interp_ts" => do
       let ts ← pNat; let d ← pList pNat; let v ← pList pRat; pure (.interpTs ts d v)
   | "cfa" => do let x ← pOperand live; let u ← pNat; pure (.cfa x u)
+  | "cfa_ref" => do
+      let i ← pNat; let u ← pNat
+      match live[i]? with | some r => pure (.cfaRef r u) | none => failure
+  | "normalize" => do let a ← pRat; let t ← tok; pure (.normalize a t)
+  | "aggregate_area" => do let a ← pRat; let t ← tok; pure (.aggregateArea a t)
+  | "time_agg" => pure .timeAgg
+  | "time_rate" => pure .timeRate
   | _ => failure
 
-def pMOp : P MOp := do
+def pMOp (live : List Ref) : P MOp := do
   let name ← tok
   match name with
   | "conv_unit" => do let u ← pNat; pure (.convUnit u)
@@ -126,7 +159,11 @@ def pMOp : P MOp := do
   | "conv_si" => pure .convSi
   | "set_values" => do let v ← pList pRat; pure (.setValues v)
   | "set_item" => do let i ← pInt; let x ← pRat; pure (.setItem i x)
-  | "meta_set" => do let k ← pNat; let v ← tok; pure (.metaSet k v)
+  | "meta_set" => do let k ← pNat; let v ← pOV; pure (.metaSet k v)
+  | "meta_append" => do let k ← pNat; let x ← tok; pure (.metaAppend k x)
+  | "set_values_ref" => do
+      let i ← pNat
+      match live[i]? with | some r => pure (.setValuesRef r) | none => failure
   | "meta_replace" => do let m ← pMeta; pure (.metaReplace m)
   | "cull_inplace" => do let ts ← pNat; pure (.cullInplace ts)
   | _ => failure
@@ -142,15 +179,48 @@ def runCmd (mode : Mode) (h : Heap) (live : List Ref) (toks : List String) :
     Option (Heap × List Ref × String) :=
   match toks with
   | "new" :: rest =>
-    let p : P (Heap × Ref) := do
+    let p : P (Except Err (Heap × Ref)) := do
       let c ← tok
       let c ← match cls? c with | some c => pure c | none => failure
       let mt ← pBool; let vd ← pBool; let dt ← pNat; let u ← pNat
-      let ap ← pList pNat; let md ← pMeta; let d ← pList pNat; let v ← pList pRat
-      pure (build h c mt vd dt u ap md d v)
+      let ap ← pList pNat; let md ← pMeta; let d ← pList pNat
+      let t ← tok
+      if t = "V" then do
+        let v ← pList pRat
+        pure (Except.ok (build h c mt vd dt u ap md d v))
+      else if t = "VR" then do
+        let i ← pNat
+        match live[i]? with
+        | some l => pure (buildFrom h c mt vd dt u ap md d l)
+        | none => failure
+      else failure
     match p.run rest with
-    | some ((h', r), []) => some (h', live ++ [r], s!"ok {live.length}")
+    | some (.ok (h', r), []) => some (h', live ++ [r], s!"ok {live.length} " ++ shareStr h' live r)
+    | some (.error e, []) => some (h, live, showErr e)
     | _ => none
+  | "nl" :: rest =>
+    match (pList pRat).run rest with
+    | some (v, []) => let p := newList h v; some (p.1, live ++ [p.2], s!"ok {live.length}")
+    | _ => none
+  | "na" :: rest =>
+    match (pList (pOperand live)).run rest with
+    | some (l, []) => let p := newArgs h l; some (p.1, live ++ [p.2], s!"ok {live.length}")
+    | _ => none
+  | "lm" :: i :: rest =>
+    match i.toNat? >>= (live[·]?) with
+    | none => none
+    | some c =>
+      let p : P LOp := do
+        let t ← tok
+        if t = "set" then do let k ← pInt; let x ← pRat; pure (.set k x)
+        else if t = "append" then do let x ← pRat; pure (.append x)
+        else failure
+      match p.run rest with
+      | some (op, []) =>
+        match mutList h c op with
+        | .error e => some (h, live, showErr e)
+        | .ok h' => some (h', live, "ok")
+      | _ => none
   | "d" :: i :: rest =>
     match i.toNat? >>= (live[·]?) with
     | none => none
@@ -165,7 +235,7 @@ def runCmd (mode : Mode) (h : Heap) (live : List Ref) (toks : List String) :
     match i.toNat? >>= (live[·]?) with
     | none => none
     | some c =>
-      match pMOp.run rest with
+      match (pMOp live).run rest with
       | some (op, []) =>
         match mutate mode h c op with
         | .error e => some (h, live, showErr e)
